@@ -1,6 +1,7 @@
 //! hx: drives the real adsb_deku / rsadsb_common code and records what it did as ndjson events.
 //! The judgement of every event is made by TLC against the TLA+ specification, never here.
 mod project;
+mod track;
 
 use std::alloc::{GlobalAlloc, Layout, System};
 use std::io::{BufRead, BufWriter, Write};
@@ -300,6 +301,7 @@ fn main() {
     match args.get(1).map(String::as_str) {
         Some("decode") => cmd_decode(&args[2..]),
         Some("pair") => cmd_pair(),
+        Some("track") => track::cmd_track(),
         Some("nlsweep") => cmd_nlsweep(),
         Some("config") => {
             println!("{}", if cfg!(feature = "std") { "std" } else { "alloc" });
